@@ -147,7 +147,8 @@ def main(argv=None):
                 vac["covers_unknown"] += 1
             elif cv["name"] == "requires" or cv["outcome"] == "lemma":
                 crashes.append((r["contract"], f"vacuous: cover `{cv['name']}` of case {r['case']} is unsatisfiable"))
-        exits_ok = [cv for cv in r["covers"] if cv["name"].startswith("exit") and cv["status"] in ("sat", "unknown")]
+        exits_ok = [cv for cv in r["covers"] if (cv["name"].startswith("exit") or cv["name"] == "truncation point")
+                    and cv["status"] in ("sat", "unknown")]
         if r["contract"].startswith("lemma:") is False and not r.get("undecided") and not exits_ok:
             crashes.append((r["contract"], f"vacuous: no reachable exit in case {r['case']}"))
         for ob in r["obligations"]:
